@@ -543,6 +543,7 @@ PROPS["C01"] = dict(
     cap=dict(quick=600, thorough=900),
     harnesses=[
         _cx("cx_resolve_var_d0", "quick", bounds="compiler: resolve_var in one function with three locals whose names are solver-chosen letters (shadowing occurs) and any queried name: the innermost binding, else a global"),
+        _cx("cx_resolve_var_d0_n2", "thorough", bounds="compiler: resolve_var in one function with two locals of solver-chosen names"),
         _cx("cx_scope_end_emits", "x", bounds="compiler: scope_end releases exactly the locals of the scope (Pop / CloseUpvalue), outer locals survive"),
         H("c01", "c01_value_add_int_int", bounds="Integer + Integer, all i64 pairs without overflow"),
         H("c01", "c01_value_sub_int_int", "thorough", bounds="Integer - Integer"),
@@ -1021,6 +1022,8 @@ PROPS["C06"] = dict(
     harnesses=[
         _cx("cx_resolve_var_d1", "quick", bounds="compiler: a closure in a function with 3+1 locals (solver-chosen names, shadowing occurs), one earlier resolve, any queried name: the upvalue designates the innermost binding in the enclosing function and marks it captured"),
         _cx("cx_resolve_var_d1b", "x", bounds="same with 2+2 locals and two earlier resolves"),
+        _cx("cx_resolve_var_d1_n20", "thorough", bounds="closure without own locals in a function with two locals of solver-chosen names"),
+        _cx("cx_resolve_var_d1_n21", "thorough", bounds="closure with one local in a function with two locals, names solver-chosen (the closure's own local may shadow)"),
         _cx("cx_resolve_var_d2", "x", bounds="(did not close: 13.5 GB after 19 min) closure in closure in function, 2+1+1 locals, two earlier resolves per level: non-local upvalue chains"),
         _cx("cx_resolve_var_d2b", "x", bounds="closure in closure, 3+2+0 locals"),
         _vm("c06", "c06_capture_off0_idx0", "x", dispatches=3, bounds="capture local 0 at frame offset 0", objects=True),
